@@ -237,6 +237,7 @@ func runFront(q frontReq, body string) string {
 		frontHeaders(q, req.Header)
 		rec := httptest.NewRecorder()
 		mutated := false
+		altered := false // a backend call carried a path that is neither the request path nor one of the backend's own
 		switch q.srv {
 		case "cal":
 			px := q.prefix
@@ -244,8 +245,10 @@ func runFront(q frontReq, body string) string {
 				calendars: []caldav.Calendar{{Path: px + "/u/cal/a/", Name: "A"}},
 				objects:   map[string][]caldav.CalendarObject{px + "/u/cal/a/": {{Path: px + "/u/cal/a/x.ics", ETag: "e1", Data: simpleCal("u1", "s")}}}}
 			(&caldav.Handler{Backend: b, Prefix: q.handlerPrefix()}).ServeHTTP(rec, req)
+			known := map[string]bool{req.URL.Path: true, b.principal: true, b.homeSet: true, px + "/u/cal/a/": true, px + "/u/cal/a/x.ics": true}
 			for _, c := range b.log.take() {
 				mutated = mutated || isMutating(c)
+				altered = altered || callPathAltered(c, known)
 			}
 		case "card":
 			px := q.prefix
@@ -253,8 +256,10 @@ func runFront(q frontReq, body string) string {
 				books:   []carddav.AddressBook{{Path: px + "/u/ab/a/", Name: "A"}},
 				objects: map[string][]carddav.AddressObject{px + "/u/ab/a/": {{Path: px + "/u/ab/a/x.vcf", ETag: "e1", Card: simpleCard("A B")}}}}
 			(&carddav.Handler{Backend: b, Prefix: q.handlerPrefix()}).ServeHTTP(rec, req)
+			known := map[string]bool{req.URL.Path: true, b.principal: true, b.homeSet: true, px + "/u/ab/a/": true, px + "/u/ab/a/x.vcf": true}
 			for _, c := range b.log.take() {
 				mutated = mutated || isMutating(c)
+				altered = altered || callPathAltered(c, known)
 			}
 		case "prin":
 			webdav.ServePrincipal(rec, req, &webdav.ServePrincipalOptions{CurrentUserPrincipalPath: "/u/",
@@ -267,8 +272,25 @@ func runFront(q frontReq, body string) string {
 				return fmt.Sprintf("%d-broken-body %s", res.StatusCode, b01(mutated))
 			}
 		}
+		if altered {
+			return fmt.Sprintf("%d %s altered-path", res.StatusCode, b01(mutated))
+		}
 		return fmt.Sprintf("%d %s", res.StatusCode, b01(mutated))
 	})
+}
+
+// a logged backend call "Name <hex path> …": the path must be the request path unchanged (with or without its trailing
+// slash, as sent) or a path the backend itself handed out
+func callPathAltered(call string, known map[string]bool) bool {
+	f := strings.Fields(call)
+	if len(f) < 2 {
+		return false
+	}
+	p, err := unhxString(f[1])
+	if err != nil {
+		return false
+	}
+	return !known[p]
 }
 
 func emitFront(o *Out, r *RNG, q frontReq) {
